@@ -40,13 +40,37 @@ Definition word_at (d : bytes) (i : nat) : bool :=
 Definition word_before (d : bytes) (i : nat) : bool :=
   match i with O => false | S k => word_at d k end.
 
-Definition assert_holds (a : assertion) (d : bytes) (i : nat) : bool :=
+(* The neighbours of position i as an assertion sees them: the byte before and the byte
+   at i -- or, in the wide form of a regexp, the CHARACTERS: the byte two positions
+   before (if there are two bytes before) and the byte at i (if two bytes follow).  The
+   documentation only says that `wide` regexps match characters interleaved with
+   zeroes; following DESIGN.md 1.3 the reading of the implementation (re/mod.rs
+   WideIter) is taken where a neighbour is not a proper wide character: the byte in
+   the character position is looked at, the byte in the zero position is not, and a
+   single remaining byte is no neighbour at all (so ^ also holds at offset 1 and $ one
+   byte before the end). *)
+Definition nb_prev (wide : bool) (d : bytes) (i : nat) : option N :=
+  if wide then (if Nat.leb 2 i then nth_error d (i - 2) else None)
+  else match i with O => None | S k => nth_error d k end.
+Definition nb_next (wide : bool) (d : bytes) (i : nat) : option N :=
+  if wide then (if Nat.leb (i + 2) (length d) then nth_error d i else None)
+  else nth_error d i.
+Definition is_word_opt (o : option N) : bool := match o with Some b => is_word b | None => false end.
+Definition is_none (o : option N) : bool := match o with Some _ => false | None => true end.
+
+Fixpoint assert_holds_w (wide : bool) (a : assertion) (d : bytes) (i : nat) : bool :=
+  let p := is_word_opt (nb_prev wide d i) in
+  let c := is_word_opt (nb_next wide d i) in
   match a with
-  | AStart => Nat.eqb i 0                       (* ^ : the beginning of the data *)
-  | AEnd => Nat.eqb i (length d)                (* $ : the end of the data *)
-  | AWordB => xorb (word_before d i) (word_at d i)
-  | ANotWordB => negb (xorb (word_before d i) (word_at d i))
+  | AStart => is_none (nb_prev wide d i)         (* ^ : the beginning of the data *)
+  | AEnd => is_none (nb_next wide d i)           (* $ : the end of the data *)
+  | AWordB => xorb p c
+  | ANotWordB => negb (xorb p c)
+  | AWordStart => negb p && c                    (* \b{start} *)
+  | AWordEnd => p && negb c                      (* \b{end} *)
+  | AWide a' => assert_holds_w true a' d i
   end.
+Definition assert_holds (a : assertion) (d : bytes) (i : nat) : bool := assert_holds_w false a d i.
 
 Definition le_opt (k : nat) (mx : option nat) : Prop :=
   match mx with None => True | Some m => (k <= m)%nat end.
